@@ -272,3 +272,43 @@ Proof.
   destruct (key_with_ts_parse b Wb Lb) as (Eb & Tb & _).
   rewrite <- Ea at 1. rewrite <- Eb at 1. now apply compare_keys_spec.
 Qed.
+
+(* ---- binary.Uvarint on arbitrary buffers ---- *)
+Lemma uvarint_f_bounds buf : forall i x s, (i <= 10)%nat -> s = 7 * N.of_nat i -> x < 2 ^ s ->
+  let r := uvarint_f buf i x s in
+  ((0 < snd r)%Z -> (Z.of_nat i < snd r <= Z.of_nat i + Z.of_nat (length buf))%Z /\ (snd r <= 10)%Z /\ fst r < two64)
+  /\ ((snd r <= 0)%Z -> fst r = 0 /\ (-11 <= snd r)%Z).
+Proof.
+  induction buf as [|b r IH]; intros i x s Hi Hs Hx; cbn [uvarint_f].
+  - cbn. split; intros; lia.
+  - destruct (Nat.eqb i 10) eqn:E10; [cbn [fst snd]; split; intros; lia|].
+    destruct (b <? 128) eqn:Eb.
+    + destruct (Nat.eqb i 9 && (1 <? b)) eqn:E9; cbn [fst snd length]; [split; intros; lia|].
+      split; [|intros; lia]. intros _. split; [lia|]. split; [lia|].
+      assert (P : 2 ^ s * 2 ^ (63 - s) = 2 ^ 63) by (rewrite <- N.pow_add_r; f_equal; lia).
+      destruct (Nat.eqb i 9) eqn:E9'.
+      * assert (s = 63) by lia. subst s. change two64 with (2 ^ 63 * 2). assert (b <= 1) by lia. nia.
+      * assert (Q : 2 ^ (s + 7) * 2 ^ (56 - s) = 2 ^ 63) by (rewrite <- N.pow_add_r; f_equal; lia).
+        rewrite N.pow_add_r in Q. change (2 ^ 7) with 128 in Q.
+        assert (0 < 2 ^ (56 - s)) by (apply N.neq_0_lt_0, N.pow_nonzero; lia).
+        change two64 with (2 ^ 63 * 2). nia.
+    + assert (Hi' : (S i <= 10)%nat) by lia.
+      assert (M : b mod 128 < 128) by (apply N.mod_lt; lia).
+      assert (Hx' : x + b mod 128 * 2 ^ s < 2 ^ (s + 7)).
+      { rewrite N.pow_add_r. change (2 ^ 7) with 128. nia. }
+      specialize (IH (S i) (x + b mod 128 * 2 ^ s) (s + 7) Hi' ltac:(lia) Hx').
+      cbn zeta in IH. destruct IH as [I1 I2]. cbn [length]. split; intros H.
+      * specialize (I1 H). lia.
+      * specialize (I2 H). lia.
+Qed.
+
+(* binary.Uvarint on ANY buffer: a positive count is at most 10 and at most the buffer length and the
+   value fits 64 bits; a non-positive count (short buffer / overflow) comes with value 0 *)
+Lemma uvarint_bounds buf :
+  let r := uvarint buf in
+  ((0 < snd r)%Z -> (snd r <= Z.of_nat (length buf))%Z /\ (snd r <= 10)%Z /\ fst r < two64)
+  /\ ((snd r <= 0)%Z -> fst r = 0 /\ (-11 <= snd r)%Z).
+Proof.
+  pose proof (uvarint_f_bounds buf 0%nat 0 0 ltac:(lia) ltac:(lia) ltac:(cbn; lia)) as H.
+  cbn zeta in *. unfold uvarint. destruct H as [H1 H2]. split; intros H; [specialize (H1 H)|specialize (H2 H)]; lia.
+Qed.
